@@ -187,7 +187,13 @@ def _a9(run, M, sigs):
             elif any(c == negate(fsym) for c in conds):
                 off[rest] = (sig, kw)
         if not on or not off:
-            raise Unrecognised("%s._apply does not split into a flag-set and a flag-clear path (%d / %d)" % (cname, len(on), len(off)), f.node)
+            # the adjoint of these classes is the same class with the flag toggled (rule A3): that is the adjoint only if _apply reads the flag
+            run.bad("A9", cname + " flag", f.loc(), "%s._apply does not branch on %s (%d flag-set / %d flag-clear paths), although %s._adjoint_linop builds the adjoint by "
+                    "toggling that flag: the operator built with the flag set and the one built without it act alike, so one of them is not the adjoint of the other "
+                    "(a value conjugated once in the constructor is conjugated again, or not at all, after two adjoints)" % (cname, flag, len(on), len(off), cname),
+                    stmt="A9:noflag:" + cname)
+            n += 2 if cname == "Multiply" else 1    # the pairs this class contributes on the pinned tree (scalar and array multiplier)
+            continue
         for rest in on:
             # partner = the flag-clear path under the same remaining conditions (or the most specific one they imply)
             cands = [r for r in off if r <= rest]
